@@ -164,6 +164,19 @@ chk("C02", "fault_enumeration",
     "TLA+ spec (SignedObj) model-checked by TLC; every state realised by an independent CMS encoder; impl->spec trace validation of coverage",
     "DESIGN.md §3 C02")
 
+chk("C10", "fault_enumeration",
+    "CmsMsg.tla states acceptance of an RFC 6492/8181 signed message against a peer identity key as the conjunction of 13 facets "
+    "(required signed attributes, digest, signature over all signed attributes incl. additional ones, signer id, EE certificate signed "
+    "by the peer / current / not a CA / AKI absent or the peer's, CRL signed by the peer / current / AKI / not listing the EE "
+    "certificate - in any position of an unordered list, validation key) with a machine applying up to 2/3 deviations to conforming "
+    "messages whose signed attributes total 107..300 bytes (127-129, 255-257 included); TLC checks single-point rejection. Every state "
+    "is assembled by the harness' own CMS/X.509/CRL encoder with real keys and validated by the library (relaxed and strict decode); "
+    "library-created messages are checked at both ends of and outside their validity and under another key; random facet "
+    "combinations are validated by Trace_CmsMsg.",
+    "Decision structure enumerated, bytes sampled; issuer Name / SPKI bytes come from the library's encoder.",
+    "TLA+ spec (CmsMsg) model-checked by TLC; every state realised by an independent encoder; impl->spec trace validation",
+    "DESIGN.md §3 C10")
+
 ALL = ["C%02d" % i for i in range(1, 18)]
 
 
